@@ -101,7 +101,7 @@ PROFILES = {
                 label_plain=True, qname_literal=False),
     "c06": dict(strings=STR_COMMON, locals=[l for l in LOCALS if all(ch.isalnum() or ch in "_-./" for ch in l)], bare_relations=True,
                 mandatory_args=True),
-    "c14": dict(max_bundles=0, p_repeat_id=0.4, p_missing_endpoint=0.15),
+    "c14": dict(max_bundles=0, p_repeat_id=0.4, p_missing_endpoint=0.15, p_dup=0.12),
     "c15": dict(strings=[s for s in STR_COMMON] + ["<i>x</i>", "a<b", "x>y", "R&D", "\\N", "\\G\\l", "&lt;"], p_repeat_id=0.3,
                 ns_uris=NS_URIS_ASCII, p_label=0.5),
     "c08": dict(p_repeat_id=0.6, max_steps=16),
@@ -461,7 +461,16 @@ class Gen:
         if x < 0.10 + self.p["p_interleave_ns"] + self.p["p_attrs_op"]:
             o = self.op_attrs()
             return [o] if o else []
-        return [self.op_rec()]
+        op = self.op_rec()
+        if r.random() < self.p.get("p_dup", 0.04) and op[6] != "conv":
+            # the very same statement made twice (identical records are kept apart by every container: multiplicity is content)
+            import copy
+            twin = copy.deepcopy(op)
+            twin[7] = "R%d" % self.nrec
+            self.nrec += 1
+            self.rec_labels.append((twin[7], twin[2], twin[1]))
+            return [op, twin]
+        return [op]
 
     def program(self, steps=None):
         r = self.r
